@@ -116,4 +116,90 @@ theorem declared_size_is_byte_count (fl : Flavour) (key : Option Bytes) (o : Wri
     n = chunks.flatten.length :=
   ((wpD_run (writeStream_wp cfg env cache fl key o chunks hv)).2 sri hr).2.2.2.1 n hn
 
+/-! ### end to end: write, then read -/
+
+/-- From the two post-conditions of a keyed write (whatever run produced them) to the read-back. -/
+theorem read_back_of_posts (key : Bytes) (o : WriteOpts) (ho : OptsWF key o) (hnone : o.sri = none)
+    (chunks : List Bytes) (hlen : chunks.flatten.length ≤ Rec.u64Max) (b0 : Bytes) (r : Res Integrity) (fs' : FS)
+    (hsp : StreamPost cfg cache (some key) o chunks r fs') (hbp : BucketPost cfg cache key o chunks b0 r fs')
+    (hv : ContentValid cfg cache fs') (sri : Integrity) (hok : r = .ok sri)
+    (hl : 4 ≤ (Bytes.hex (cfg.H (o.algo.getD .sha256) chunks.flatten)).length) (b : Bytes)
+    (hf : fs'.get (addrPath cache (o.algo.getD .sha256)
+      (Bytes.hex (cfg.H (o.algo.getD .sha256) chunks.flatten))) = some (.file b))
+    (hinj : cfg.H (o.algo.getD .sha256) b = cfg.H (o.algo.getD .sha256) chunks.flatten → b = chunks.flatten) :
+    sri = Sri.compute cfg.H (o.algo.getD .sha256) chunks.flatten ∧
+    (run env (read cfg cache key) fs').1 = .ok chunks.flatten ∧
+    (run env (readHash cfg cache sri) fs').1 = .ok chunks.flatten := by
+  have hs := (hsp sri hok).2.1 hnone
+  obtain ⟨tm, _, hbucket, hle⟩ := hbp sri hok
+  have hsz : o.size.getD chunks.flatten.length ≤ Rec.u64Max := by
+    cases hz : o.size with
+    | none => simpa using hlen
+    | some n => simpa using ho.size n hz
+  subst hs
+  refine ⟨rfl, ?_, readHash_present cfg env cache fs' _ _ b hl hv hf hinj⟩
+  exact read_back_by_key_cacache cfg env cache fs' key
+    { o with size := some (o.size.getD chunks.flatten.length) } (ho.with_size _ hsz) _ _ b b0 tm
+    (hle ho.time) hbucket hl hv hf hinj
+
+/-- **C02, end to end, by key.**  Any flavour, key, well-formed options (no declared integrity),
+chunking, any initial state with a valid store whose bucket for the key is absent or a regular
+file: if the write answers ok, then — provided a regular file sits at the address and the digest
+does not collide on it — the answer is the digest of the bytes fed, and reading by the key and
+by the returned address both yield exactly those bytes. -/
+theorem write_then_read_by_key (fl : Flavour) (key : Bytes) (o : WriteOpts) (ho : OptsWF key o)
+    (hnone : o.sri = none) (chunks : List Bytes) (hlen : chunks.flatten.length ≤ Rec.u64Max) (b0 : Bytes)
+    (fs : FS) (hv : ContentValid cfg cache fs) (hb : BucketIs fs (bucketPath cfg cache key) b0)
+    (sri : Integrity) (hok : (run env (writeStream cfg cache fl (some key) o chunks) fs).1 = .ok sri)
+    (hl : 4 ≤ (Bytes.hex (cfg.H (o.algo.getD .sha256) chunks.flatten)).length) (b : Bytes)
+    (hf : (run env (writeStream cfg cache fl (some key) o chunks) fs).2.1.get (addrPath cache (o.algo.getD .sha256)
+      (Bytes.hex (cfg.H (o.algo.getD .sha256) chunks.flatten))) = some (.file b))
+    (hinj : cfg.H (o.algo.getD .sha256) b = cfg.H (o.algo.getD .sha256) chunks.flatten → b = chunks.flatten) :
+    sri = Sri.compute cfg.H (o.algo.getD .sha256) chunks.flatten ∧
+    (run env (read cfg cache key) (run env (writeStream cfg cache fl (some key) o chunks) fs).2.1).1 =
+      .ok chunks.flatten ∧
+    (run env (readHash cfg cache sri) (run env (writeStream cfg cache fl (some key) o chunks) fs).2.1).1 =
+      .ok chunks.flatten := by
+  have hw := (write_ok_means cfg env cache fl key o chunks b0 fs hv hb (fun _ => none)).1
+  exact read_back_of_posts cfg env cache key o ho hnone chunks hlen b0 _ _ hw.1 hw.2
+    (store_valid_after cfg env cache fl (some key) o chunks fs hv) sri hok hl b hf hinj
+
+/-- The same when the write ran under any fault plan and still answered ok (truthful success). -/
+theorem faulty_write_then_read_by_key (fl : Flavour) (key : Bytes) (o : WriteOpts) (ho : OptsWF key o)
+    (hnone : o.sri = none) (chunks : List Bytes) (hlen : chunks.flatten.length ≤ Rec.u64Max) (b0 : Bytes)
+    (fs : FS) (hv : ContentValid cfg cache fs) (hb : BucketIs fs (bucketPath cfg cache key) b0)
+    (plan : Nat → Option Fault) (sri : Integrity)
+    (hok : (runFault env plan (writeStream cfg cache fl (some key) o chunks) fs 0).1 = .ok sri)
+    (hl : 4 ≤ (Bytes.hex (cfg.H (o.algo.getD .sha256) chunks.flatten)).length) (b : Bytes)
+    (hf : (runFault env plan (writeStream cfg cache fl (some key) o chunks) fs 0).2.1.get
+      (addrPath cache (o.algo.getD .sha256) (Bytes.hex (cfg.H (o.algo.getD .sha256) chunks.flatten))) = some (.file b))
+    (hinj : cfg.H (o.algo.getD .sha256) b = cfg.H (o.algo.getD .sha256) chunks.flatten → b = chunks.flatten) :
+    sri = Sri.compute cfg.H (o.algo.getD .sha256) chunks.flatten ∧
+    (run env (read cfg cache key) (runFault env plan (writeStream cfg cache fl (some key) o chunks) fs 0).2.1).1 =
+      .ok chunks.flatten := by
+  have hw := (write_ok_means cfg env cache fl key o chunks b0 fs hv hb plan).2
+  have hv' := (wpD_fault (writeStream_wp cfg env cache fl (some key) o chunks hv) plan 0).1
+  have := read_back_of_posts cfg env cache key o ho hnone chunks hlen b0 _ _ hw.1 hw.2 hv' sri hok hl b hf hinj
+  exact ⟨this.1, this.2.1⟩
+
+/-- **C02, end to end, by address**: an ok by-address write returns the digest, and `read_hash` of
+it yields the bytes. -/
+theorem write_hash_then_read (fl : Flavour) (o : WriteOpts) (chunks : List Bytes) (fs : FS)
+    (hv : ContentValid cfg cache fs) (sri : Integrity)
+    (hok : (run env (writeStream cfg cache fl none o chunks) fs).1 = .ok sri)
+    (hl : 4 ≤ (Bytes.hex (cfg.H (o.algo.getD .sha256) chunks.flatten)).length) (b : Bytes)
+    (hf : (run env (writeStream cfg cache fl none o chunks) fs).2.1.get (addrPath cache (o.algo.getD .sha256)
+      (Bytes.hex (cfg.H (o.algo.getD .sha256) chunks.flatten))) = some (.file b))
+    (hinj : cfg.H (o.algo.getD .sha256) b = cfg.H (o.algo.getD .sha256) chunks.flatten → b = chunks.flatten) :
+    sri = Sri.compute cfg.H (o.algo.getD .sha256) chunks.flatten ∧
+    (run env (readHash cfg cache sri) (run env (writeStream cfg cache fl none o chunks) fs).2.1).1 =
+      .ok chunks.flatten := by
+  have hw := (write_hash_ok_means cfg env cache fl o chunks fs hv (fun _ => none)).1
+  have hs : sri = Sri.compute cfg.H (o.algo.getD .sha256) chunks.flatten := by
+    have := (hw sri hok).1
+    simpa using this
+  subst hs
+  exact ⟨rfl, readHash_present cfg env cache _ _ _ b hl
+    (store_valid_after cfg env cache fl none o chunks fs hv) hf hinj⟩
+
 end Cacache.C02
